@@ -52,6 +52,16 @@ class AsyncGeneratorType:
   pass
 
 
+def _type_key(pyval):
+  """Type of pyval, element-wise (and recursively) for raw tuples.
+
+  1 == 1.0 == True, so the value alone does not identify a constant.
+  """
+  if pyval.__class__ is tuple:
+    return tuple(_type_key(v) for v in pyval)
+  return type(pyval)
+
+
 class Converter(utils.ContextWeakrefMixin):
   """Functions for creating the classes in abstract.py."""
 
@@ -584,10 +594,7 @@ class Converter(utils.ContextWeakrefMixin):
       The converted constant. (Instance of BaseValue)
     """
     node = node or self.ctx.root_node
-    if pyval.__class__ is tuple:
-      type_key = tuple(type(v) for v in pyval)
-    else:
-      type_key = type(pyval)
+    type_key = _type_key(pyval)
     key = ("constant", pyval, type_key)
     if key in self._convert_cache:
       if self._convert_cache[key] is None:
